@@ -113,6 +113,28 @@ def pickle_frame(dps, proto):
   return struct.pack('!L', len(payload)) + payload
 
 
+def py2_pickle_frame(dps):
+  """the frame a Python 2 relay sends (protocol 2): metric names are byte strings (SHORT_BINSTRING / BINSTRING
+  holding UTF-8), numbers BINFLOAT / BININT / LONG1"""
+  out = [b'\x80\x02]q\x00(']
+  for n, ts, v in dps:
+    nb = n.encode('utf-8')
+    out.append((b'U' + bytes([len(nb)])) if len(nb) < 256 else (b'T' + struct.pack('<i', len(nb))))
+    out.append(nb)
+    for x in (ts, v):
+      if isinstance(x, float):
+        out.append(b'G' + struct.pack('>d', x))
+      elif -2 ** 31 <= x < 2 ** 31:
+        out.append(b'J' + struct.pack('<i', x))
+      else:
+        raw = x.to_bytes((x.bit_length() + 8) // 8, 'little', signed=True)
+        out.append(b'\x8a' + bytes([len(raw)]) + raw)
+    out.append(b'\x86\x86')
+  out.append(b'e.')
+  payload = b''.join(out)
+  return struct.pack('!L', len(payload)) + payload
+
+
 # ---- malformed frames (C11) ---------------------------------------------------------
 # (no bytes objects: protocol 2 pickles them through the global _codecs.encode, which makes the whole frame a rejected pickle)
 BAD_ENTRIES = [(None, (1.0, 2.0)), (5, (1.0, 2.0)), (3.5, (1.0, 2.0)), (('t',), (1.0, 2.0)), ('a', ('x', 2.0)),
@@ -204,8 +226,11 @@ def bad_pickle(rng):
 
 
 class Run(object):
-  def __init__(self, wm, proto, pickle_max=2 ** 20, flow=False):
+  def __init__(self, wm, proto, pickle_max=2 ** 20, flow=False, idle=None):
     self.wm, self.proto = wm, proto
+    wm.settings['METRIC_CLIENT_IDLE_TIMEOUT'] = idle     # read when a connection is made / a datapoint arrives
+    from twisted.internet import task as _task
+    self.clock = _task.Clock()
     wm.settings['USE_FLOW_CONTROL'] = flow             # read in connectionMade
     wm.settings['PICKLE_RECEIVER_MAX_LENGTH'] = pickle_max     # read by the receiver's constructor
     self.seen = []
@@ -223,6 +248,10 @@ class Run(object):
     else:
       self.r = wm.protocols.MetricDatagramReceiver()
       self.r.peerName = 'peer'
+      # the UDP port: there is no connection that an idle timeout could close
+      self.tr.stopListening = self.tr.loseConnection
+      self.r.transport = self.tr
+    self.r.callLater = self.clock.callLater               # TimeoutMixin's timer runs on the virtual clock
 
   def feed(self, chunk):
     esc = 0
@@ -244,14 +273,19 @@ class Run(object):
       while fn is not None and fn in ev.handlers:
         ev.handlers.remove(fn)
     self.wm.state.metricReceiversPaused = False
+    self.wm.settings['METRIC_CLIENT_IDLE_TIMEOUT'] = None
+    try:
+      self.r.setTimeout(None)
+    except Exception:
+      pass
 
 
-def execute(wm, proto, frames, cuts, expected_dps, res=0, pause_at=0):
+def execute(wm, proto, frames, cuts, expected_dps, res=0, pause_at=0, idle=None):
   """frames: list of dict(bytes, kind, trip, dps); cuts: byte offsets (sorted) where the stream is cut
   (for udp: datagram boundaries, aligned with frames).  Returns the trace record."""
   stream = b''.join(f['bytes'] for f in frames)
   # the default maximum frame length unless the stream contains an over-long frame (kept small on purpose)
-  run = Run(wm, proto, pickle_max=PICKLE_MAX if any(f['kind'] == 'over' for f in frames) else 2 ** 20, flow=bool(pause_at))
+  run = Run(wm, proto, pickle_max=PICKLE_MAX if any(f['kind'] == 'over' for f in frames) else 2 ** 20, flow=bool(pause_at), idle=idle)
   segs = []
   allids = {}
   nid = 0
@@ -286,6 +320,12 @@ def execute(wm, proto, frames, cuts, expected_dps, res=0, pause_at=0):
       if b <= a:
         continue
       esc = run.feed(stream[a:b])
+      if idle:
+        # TCP: the next segment arrives well within the idle timeout; UDP: long after it (no connection to expire)
+        try:
+          run.clock.advance(idle * 3 if proto == 'udp' else idle / 4.0)
+        except Exception:
+          esc = 1
       if pause_at and wm.state.metricReceiversPaused:
         try:
           wm.events.resumeReceivingMetrics()
